@@ -131,6 +131,14 @@ def tsan(ctx, cov):
         if os.path.exists(out):
             r = json.load(open(out))
             ctx["violations"] += r["violations"]
+        if k % 10 == 0:
+            # the steady-state hammer under the sanitizer as well (smaller: TSan costs 5-7x)
+            hout = os.path.join(wdir, f"h{k}.json")
+            _run([binary, "C18", "--seed", str(s + 7), "--extra", "mode=hammer", "--extra", "places=512", "--extra", "threads=8", "--extra", "iters=15000", "--out", hout], env=env2, timeout=3600)
+            if os.path.exists(hout):
+                r = json.load(open(hout))
+                ctx["violations"] += r["violations"]
+                cov["tsan_hammer_evaluations"] = cov.get("tsan_hammer_evaluations", 0) + r["counters"].get("hammer_concurrent_evaluations", 0)
         for f in os.listdir(wdir):
             if f.startswith(f"tsan{k}."):
                 text = open(os.path.join(wdir, f)).read()
